@@ -246,3 +246,66 @@ def write_replay(prop, kind, body):
     path = os.path.join(VERIF, "replays", "%s-%s-%s.evl" % (prop, kind, h))
     open(path, "w").write(body)
     return path
+
+
+# ---------------------------------------------------------------- corpus and shrinking
+
+def run_both(path):
+    """execute one EVL file on the implementation and on the model; returns [(line, impl, model, equal)] for the lines that produce output"""
+    rc, impl = sh([EVH, "replay", path], timeout=600)
+    tmp = os.path.join(BUILD, "both_%d.obs" % os.getpid())
+    run_model(path, tmp)
+    model = open(tmp).read().splitlines()
+    os.remove(tmp)
+    impl = impl.splitlines()
+    lines = [l.rstrip("\n") for l in open(path) if produces_output(l)]
+    out = []
+    for i, s_ in enumerate(lines):
+        a = impl[i] if i < len(impl) else "<missing>"
+        b = model[i] if i < len(model) else "<missing>"
+        na, nb = norm_pair(s_, a, b)
+        out.append((s_, a, b, na == nb))
+    return out
+
+
+def corpus_disagreements(prop):
+    """the corpus of past failing scenarios of this property (minimised replays of seeded and found defects), run first on every
+    run: every line must agree between implementation and model"""
+    d = os.path.join(VERIF, "corpus", prop)
+    dis, n = [], 0
+    if not os.path.isdir(d): return dis, n
+    for f in sorted(os.listdir(d)):
+        if not f.endswith(".evl"): continue
+        n += 1
+        for (s_, a, b, eq) in run_both(os.path.join(d, f)):
+            if not eq and "unmodelled" not in b:
+                dis.append({"scenario": "corpus/%s/%s" % (prop, f), "lineno": 0, "line": s_, "impl": a, "model": b}); break
+    return dis, n
+
+
+def shrink_disagreement(lines, bad_line):
+    """delta-debugging on scenario lines: drop lines while implementation and model still disagree on `bad_line`"""
+    def still(ls):
+        tmp = os.path.join(BUILD, "shrink_%d.evl" % os.getpid())
+        open(tmp, "w").write("\n".join(ls) + "\n")
+        try:
+            r = run_both(tmp)
+        finally:
+            os.remove(tmp)
+        return any(s_ == bad_line and not eq for (s_, a, b, eq) in r)
+    if bad_line not in lines or not still(lines): return lines
+    cur = list(lines)
+    chunk = max(1, len(cur) // 2)
+    budget = 200
+    while chunk >= 1 and budget > 0:
+        i, progressed = 0, False
+        while i < len(cur) and budget > 0:
+            cand = cur[:i] + cur[i + chunk:]
+            budget -= 1
+            if bad_line in cand and still(cand):
+                cur = cand; progressed = True
+            else:
+                i += chunk
+        if chunk == 1 and not progressed: break
+        chunk = max(1, chunk // 2) if chunk > 1 else (1 if progressed else 0)
+    return cur
